@@ -260,7 +260,9 @@ Definition mapply (b b' : base) (m : mst) (te : Z * ev) : mst :=
         let x1 := if negb (zb fl) then x1 <| m_ctx_early ::= filter (fun p => negb ((fst p =? io_tok x0) && (snd p =? t))) |> else x1 in
         if negb (zb fl) && io_flag x0 && zmem (io_tok x0) (m_cb_run x) && negb (zmem (io_tok x0) (m_ctxdone x))
         then x1 <| m_term_ended ::= cons (io_tok x0, t) |> else x1)
-  | EWSend i w n isnil rev val => mupd m i (fun x => x <| m_wsend := (if zb isnil then 0 else rev) |>)
+  (* the entry counts as news for a follower only if the instance does not claim when the entry is handed over: the
+     record of its receipt comes after the library has handled it (and may have stepped down because of it) *)
+  | EWSend i w n isnil rev val => mupd m i (fun x => x <| m_wsend := (if zb isnil || io_flag (inst_of b i) then 0 else rev) |>)
   | EWRecv i w n =>
       (* the entry is handled at once; as a follower the instance adopts the leader id it names *)
       mupd m i (fun x => if negb (io_flag (inst_of b i)) && (0 <? m_wsend x) then x <| m_seen_rev := m_wsend x |> else x)
